@@ -16,6 +16,47 @@ func init() {
 	register("C04", "R4", 6, "each modifier refuses when its predicate fails with its own sentinel error; AuthenticatedRequest is true only when credentials were parsed and both constant-time comparisons against the configured user and password equal 1", c04r4)
 	register("C04", "R5", 5, "error to status table: authentication error 407, deny error 403, prohibited error 451, martian ErrorStatus its own status; the 407 carries a Basic challenge and every error response the error header", c04r5)
 	register("C04", "R6", 2, "own headers survive: the challenge set on a locally generated 407 is captured before and restored after the response modifiers (whose hop-by-hop removal deletes Proxy-Authenticate) and before the response is written", c04r6)
+	register("C04", "R8", 5, "the deny list's and the time frame's verdicts are pure functions of their input: the domain matcher's decision tables (same analysis as C17.R2: no cached or spelling-dependent verdict); a time-frame entry matches iff the weekday equals and start ≤ hour < end, both read from the given time's wall-clock accessors; the allow check asks every entry about one clock reading", func(r *R) {
+		c17r2(r)
+		tm := r.method("ruleset", "TimeFrameEntry", "Match")
+		mm, ok := decisionTable(tm, map[string]string{
+			"((time.Time).Weekday($1) == $0.Weekday)": "day", "((time.Time).Hour($1) >= $0.HourStart)": "from", "((time.Time).Hour($1) < $0.HourEnd)": "before",
+		}, 0, func(a map[string]bool) bool { return a["day"] && a["from"] && a["before"] })
+		switch {
+		case !ok:
+			r.undecided("TimeFrameEntry.Match", tm.Pos(), strings.Join(mm, "; "))
+		case len(mm) > 0:
+			r.bad("TimeFrameEntry.Match", tm.Pos(), strings.Join(mm, "; "))
+		default:
+			r.ok("TimeFrameEntry.Match", tm.Pos(), "matches ⇔ weekday equal ∧ HourStart ≤ hour < HourEnd, weekday and hour of the same local time")
+		}
+		ta := r.fn("middleware", "TimeFrameAllows")
+		ps, _ := enumPaths(ta, 64, 2)
+		var why []string
+		nTrue := 0
+		for _, p := range ps {
+			if p.Cut || len(p.Ret) != 1 {
+				continue
+			}
+			matched := p.hasCond(func(c string) bool { return strings.HasPrefix(c, "(*ruleset.TimeFrameEntry).Match(") && strings.HasSuffix(c, ", dyn:middleware.getCurrentTime())") })
+			if matched != (p.Ret[0] == "true") {
+				why = append(why, fmt.Sprintf("some entry matched=%v but allowed=%s", matched, p.Ret[0]))
+			}
+			if p.Ret[0] == "true" {
+				nTrue++
+			}
+			n := 0
+			for _, e := range p.Events {
+				if e.Kind == "call" && e.Desc == "dyn:middleware.getCurrentTime()" {
+					n++
+				}
+			}
+			if n != 1 {
+				why = append(why, fmt.Sprintf("clock read %d times", n))
+			}
+		}
+		r.check(nTrue > 0 && len(why) == 0, "middleware.TimeFrameAllows", ta.Pos(), "allowed ⇔ some entry matches the one clock reading", strings.Join(dedupStrings(why), "; "))
+	})
 	register("C04", "R7", 5, "localhost classifier structure: compared lower-cased against a list seeded with localhost, 0.0.0.0 and ::, plus lower-cased hosts-file aliases; IP literals by ParseIP+IsLoopback; every caller passes URL.Hostname()", c04r7)
 }
 
